@@ -150,8 +150,15 @@ func RunOne(req Req, dir string, hard time.Duration) (resp Resp) {
 		at    time.Time
 	}
 	done := make(chan result, 1)
+	// the byte trigger must be armed BEFORE the runner goroutine starts writing
+	var cancelAt time.Time
+	var byteCancelAt time.Time
+	byteCancelled := false
+	if req.CancelBytes > 0 {
+		out.trigger = req.CancelBytes
+		out.fire = func() { byteCancelAt = time.Now(); byteCancelled = true; cancel() }
+	}
 	start := time.Now()
-	start = time.Now()
 	go func() {
 		var res result
 		defer func() {
@@ -163,13 +170,6 @@ func RunOne(req Req, dir string, hard time.Duration) (resp Resp) {
 		}()
 		res.err = r.Run(ctx, file)
 	}()
-	var cancelAt time.Time
-	var byteCancelAt time.Time
-	byteCancelled := false
-	if req.CancelBytes > 0 {
-		out.trigger = req.CancelBytes
-		out.fire = func() { byteCancelAt = time.Now(); byteCancelled = true; cancel() }
-	}
 	var cancelC <-chan time.Time
 	if req.CancelMs >= 0 {
 		cancelC = time.After(time.Duration(req.CancelMs) * time.Millisecond)
